@@ -187,7 +187,7 @@ def stateless(msg):
 
 
 def w_frames(arg):
-    n, dfs, pays, multiply = arg
+    _n, dfs, pays, multiply = arg
     acc = Acc()
     tab = table()
     k = 0
@@ -196,7 +196,9 @@ def w_frames(arg):
             for st in range(8):
                 k += 1
                 plist = pays if multiply else [pays[k % len(pays)]]
-                for pay in plist:
+                # a long and a short frame with the same leading bytes are decoded back to back in one process, in
+                # alternating order (aliasing inputs: anything keyed on a prefix of the frame must not leak between them)
+                for pay, n in [(p_, n_) for p_ in plist for n_ in ((112, 56) if k % 2 else (56, 112))]:
                     msg = frame(n, df, tc, st, pay, [0, 0x7FFFFFF, 0x2AAAAAA, 0x1838][k % 4])
                     for name, f, extras, kind, guard in tab:
                         for extra in extras:
@@ -208,7 +210,8 @@ def w_frames(arg):
                         for sig, case in stateless(msg):
                             acc.bad(sig, case)
                         acc.n += 3 * len(tab)
-                acc.out.add((n, df, tc, st))
+                acc.out.add((112, df, tc, st))
+                acc.out.add((56, df, tc, st))
     return acc.res()
 
 
@@ -319,9 +322,8 @@ def run(ctx):
     rng = random.Random(ctx.seed)
     pays = [0, (1 << 48) - 1, 0x555555555555, 0xAAAAAAAAAAAA, rng.getrandbits(48), rng.getrandbits(48)]
     tasks = [("d", None)]
-    for n in (112, 56):
-        for df in range(32):
-            tasks.append(("f", (n, [df], pays, ctx.thorough)))
+    for df in range(32):
+        tasks.append(("f", (0, [df], pays, ctx.thorough)))
     tasks += [("l", (df, tc)) for df in ((17, 18) if ctx.thorough else (17,)) for tc in range(32)]
     ctx.pmap(w_any, tasks)
     ctx.cov["functions"] = len(table())
